@@ -71,8 +71,8 @@ func (e *evil) seal(k *ref.AKEKeys, reveal bool, gOwn, gTheir *big.Int, o akeOpt
 		c, m1, m2 = k.Cp, k.M1p, k.M2p
 	}
 	pub := e.key.Pub().Bytes()
-	if o.claim == "B" {
-		pub = e.w.Reg.DSA["B"].Bytes()
+	if o.claim == "A" || o.claim == "B" {
+		pub = e.w.Reg.DSA[o.claim].Bytes()
 	}
 	a, b := gOwn, gTheir
 	if o.swapSig {
